@@ -7,10 +7,11 @@ A *spec* describes one class; the same description is (a) turned into a real Pyt
 
 spec = {
   "id": class id, "module": module name ("__main__" = locally registered), "name": class name,
-  "bases": [ids], "slots": None | [names as written], "kind": "bean" | "serial" | "enum" | "decimal",
+  "bases": [ids], "slots": None | [names as written], "kind": "bean" | "serial" | "enum" | "decimal" | "raising",
   "own": [(name as written, value)]              bean: assigned by __init__ after the bases' __init__
   "method", "by_dict", "params", "attrs"         serial
   "members": [(name, value)]                     enum
+  "raises": exception class name                 raising: the constructor raises it whatever it is given
   "class_attrs": {name: value}                   own class-level data attributes (e.g. the ignore list)
 }
 """
@@ -21,6 +22,15 @@ import sys
 import types
 
 import pyval
+
+class JrvCustomError(Exception):
+    """An exception class of the application (neither TypeError nor any built-in)."""
+
+
+RAISABLE = {"ZeroDivisionError": ZeroDivisionError, "RuntimeError": RuntimeError, "OSError": OSError,
+            "TypeError": TypeError, "ValueError": ValueError, "KeyError": KeyError, "JrvCustomError": JrvCustomError,
+            "StopIteration": StopIteration, "AssertionError": AssertionError, "AttributeError": AttributeError,
+            "ImportError": ImportError, "LookupError": LookupError, "ArithmeticError": ArithmeticError}
 
 DEC_ID = "decimal.Decimal"
 DEC_SPEC = {"id": DEC_ID, "module": "decimal", "name": "Decimal", "bases": [], "slots": None, "kind": "decimal",
@@ -43,7 +53,6 @@ class Env(object):
         self.ids = {}
         self.extra_mods = list(extra_mods)
         self._installed = []
-        self._main_attrs = []
         self._build()
 
     # ---- construction of the real classes ---------------------------------------------------
@@ -71,7 +80,11 @@ class Env(object):
             src.append("    __slots__ = %r" % (tuple(s["slots"]),))
         for k in s.get("class_attrs", {}):
             src.append("    %s = _CA[%r]" % (k, k))
-        if s["kind"] == "bean":
+        if s["kind"] == "raising":
+            ns["_EXC"] = RAISABLE[s["raises"]]
+            src.append("    def __init__(self, *args, **kwargs):")
+            src.append("        raise _EXC('constructor of %s')" % s["name"])
+        elif s["kind"] == "bean":
             src.append("    def __init__(self):")
             for bn in bnames:
                 src.append("        %s.__init__(self)" % bn)
@@ -99,15 +112,13 @@ class Env(object):
 
     # ---- registration so that inspect.getmodule / __import__ see the classes ------------------
     def install(self):
-        main = sys.modules["__main__"]
+        """Module-qualified classes become attributes of (synthetic) modules in sys.modules.  Classes of module
+        `__main__` are NOT made attributes of the running `__main__` module: they are the classes "not importable by
+        module path" of C07 — `inspect.getmodule` only needs `cls.__module__ == "__main__"` — so that
+        Config.classes is the only way to resolve them, as in a receiving process that has its own `__main__`."""
         for s in self.specs:
             m = s["module"]
-            if s["kind"] == "decimal":
-                continue
-            if m == "__main__":
-                if not hasattr(main, s["name"]):
-                    setattr(main, s["name"], self.cls[s["id"]])
-                    self._main_attrs.append(s["name"])
+            if s["kind"] == "decimal" or m == "__main__":
                 continue
             if m not in sys.modules:
                 sys.modules[m] = types.ModuleType(m)
@@ -122,12 +133,7 @@ class Env(object):
     def uninstall(self):
         for m in self._installed:
             sys.modules.pop(m, None)
-        main = sys.modules["__main__"]
-        for n in self._main_attrs:
-            if hasattr(main, n):
-                delattr(main, n)
         self._installed = []
-        self._main_attrs = []
 
     # ---- stored attributes in the canonical order of the model -------------------------------
     def slot_names(self, cid, seen=None):
@@ -158,6 +164,9 @@ class Env(object):
         return out
 
     def hook(self, v):
+        if type(v) is bytes:
+            # bytes are outside the value universe of the model: an opaque instance with the exact type tag "bytes"
+            return ("bytes", [("hex", v.hex())])
         if type(v) is decimal.Decimal:
             return (DEC_ID, [("str", str(v))])
         cid = self.ids.get(type(v))
@@ -191,6 +200,8 @@ class Env(object):
                 kind = ["serial", s["method"], bool(s["by_dict"]), list(s["params"]), list(s["attrs"]), base]
             elif s["kind"] == "enum":
                 kind = ["enum", dict(s["members"])]
+            elif s["kind"] == "raising":
+                kind = ["raising", s["raises"]]
             else:
                 kind = ["decimal"]
             cattrs = {}
@@ -221,11 +232,26 @@ def handler_functions(env):
     def h3(obj, serialize_method, ignore_attribute, ignore, config):
         return 7
 
-    return {0: h0, 1: h1, 2: h2, 3: h3}
+    def h4(obj, serialize_method, ignore_attribute, ignore, config):
+        return None  # e.g. a redacting handler: JSON null is the value to emit
+
+    def h5(obj, serialize_method, ignore_attribute, ignore, config):
+        return []  # falsy
+
+    def h6(obj, serialize_method, ignore_attribute, ignore, config):
+        return (env.type_tag(type(obj)), 0)  # a tuple: emitted as it is, not turned into a list
+
+    def h7(obj, serialize_method, ignore_attribute, ignore, config):
+        return obj  # the object itself: emitted as it is, not dumped again
+
+    def h8(obj, serialize_method, ignore_attribute, ignore, config):
+        return ""  # falsy
+
+    return {0: h0, 1: h1, 2: h2, 3: h3, 4: h4, 5: h5, 6: h6, 7: h7, 8: h8}
 
 
 BUILTIN_TYPES = {"NoneType": type(None), "bool": bool, "int": int, "float": float, "str": str, "list": list,
-                 "tuple": tuple, "set": set, "frozenset": frozenset, "dict": dict}
+                 "tuple": tuple, "set": set, "frozenset": frozenset, "dict": dict, "bytes": bytes}
 
 
 def lean_cfg(serialize_method, ignore_attribute, handlers):
@@ -313,8 +339,13 @@ def gen_specs(rng, gen, tag, n_classes=None, ignore_attr="_ignore", method="_ser
         specs.append(spec)
     # an enumeration (not derived from a primitive type) and Decimal
     emod = rng.choice(mods)
+    members = [("BLUE", 1), ("RED", "r"), ("NIL", None), ("PI", 2.5)]
+    if rng.random() < 0.6:
+        # values that are not primitives: a list (plain JSON: survives a remote call) and a tuple (JSON turns it into a
+        # list, which is not a value of the enumeration any more: outside the domain of the RPC clause)
+        members += [("LST", [1, "x"]), ("PAIR", (1, 2))] if rng.random() < 0.7 else [("LST", [2, {"k": None}])]
     specs.append({"id": "e_%s" % tag, "module": emod, "name": "Colour%s" % tag.capitalize(), "bases": [], "slots": None,
-                  "kind": "enum", "members": [("BLUE", 1), ("RED", "r"), ("NIL", None), ("PI", 2.5)], "class_attrs": {}})
+                  "kind": "enum", "members": members, "class_attrs": {}})
     specs.append(dict(DEC_SPEC))
     return specs
 
@@ -356,6 +387,19 @@ class ValueGen(object):
 
     def plain(self, depth=2):
         return self.gen.json_value(self.rng, 3, depth)
+
+    def serial_arg(self):
+        """A constructor argument of a class with a serialisation method: plain JSON mostly; now and then a tuple, a
+        set or a Decimal — returned as it is by the method (dump does not convert what the method returns), so it
+        survives load(dump()) but not the JSON encoding of a remote call (`plain_json_args`)."""
+        r = self.rng.random()
+        if r < 0.88:
+            return self.plain()
+        if r < 0.93:
+            return (self.gen.json_scalar(self.rng), self.gen.json_scalar(self.rng))
+        if r < 0.97:
+            return set([self.rng.randint(0, 5), "s"])
+        return decimal.Decimal(self.rng.choice(DECIMALS))
 
     def hashable(self, depth):
         r = self.rng.random()
@@ -402,7 +446,7 @@ class ValueGen(object):
         if s["kind"] == "enum":
             return c[rng.choice([m for m, _v in s["members"]])]
         if s["kind"] == "serial":
-            inst = c(*[self.plain() for _ in s["params"]])
+            inst = c(*[self.serial_arg() for _ in s["params"]])
             for a in s["attrs"]:
                 if rng.random() < 0.93:
                     setattr(inst, a, self.plain())
@@ -441,7 +485,9 @@ def same(a, b, env, path="value"):
     Returns None or a description of the first difference.  Written from the property statement.
     """
     if isinstance(a, (list, tuple)):
-        if type(b) is not list or len(a) != len(b):
+        # "up to tuples and sets becoming lists": a list, or (for a value handed over as it is, e.g. a constructor
+        # argument returned by a serialisation method and never JSON-encoded) still the same kind of container
+        if type(b) not in (list, type(a)) or len(a) != len(b):
             return "%s: expected a list of %d items, got %r" % (path, len(a), b)
         for i, (x, y) in enumerate(zip(a, b)):
             r = same(x, y, env, "%s[%d]" % (path, i))
@@ -449,7 +495,7 @@ def same(a, b, env, path="value"):
                 return r
         return None
     if isinstance(a, (set, frozenset)):
-        if type(b) is not list or len(a) != len(b):
+        if type(b) not in (list, type(a)) or len(a) != len(b):
             return "%s: expected a list of %d items, got %r" % (path, len(a), b)
         rest = list(b)
         for x in a:
@@ -487,6 +533,63 @@ def same(a, b, env, path="value"):
     if type(a) is not type(b) or a != b or (type(a) is float and repr(a) != repr(b)):
         return "%s: expected %r (%s), got %r (%s)" % (path, a, type(a).__name__, b, type(b).__name__)
     return None
+
+
+def plain_json(v):
+    """None/bool/int/float/str, lists and string-keyed dicts of those: what JSON carries unchanged."""
+    if v is None or type(v) in (bool, int, float, str):
+        return True
+    if type(v) is list:
+        return all(plain_json(x) for x in v)
+    if type(v) is dict:
+        return all(type(k) is str and plain_json(x) for k, x in v.items())
+    return False
+
+
+def plain_json_args(v, env, seen=None):
+    """The declared restriction of C07's remote-call clause: every enum member reached has a plain JSON value and every
+    object with a serialisation method has plain JSON constructor arguments and attributes (dump emits what the method
+    returns, and the enum value, as they are — JSON then turns a tuple into a list and refuses a set or a Decimal)."""
+    if isinstance(v, dict):
+        return all(plain_json_args(x, env) for x in v.values())
+    if isinstance(v, (list, tuple, set, frozenset)):
+        return all(plain_json_args(x, env) for x in v)
+    if isinstance(v, enum.Enum):
+        return plain_json(v.value)
+    cid = env.ids.get(type(v))
+    if cid is None or type(v) is decimal.Decimal:
+        return True
+    kind = env.by_id[cid]["kind"]
+    if kind == "serial":
+        return all(plain_json(x) for _n, x in env.stored(v))
+    if kind == "bean":
+        return all(plain_json_args(x, env) for _n, x in env.stored(v))
+    return True
+
+
+def specs_enc(specs):
+    """Class specs as a value of the codec (tuples kept exactly), for replay files."""
+    out = []
+    for s in specs:
+        if s.get("external"):
+            continue
+        d = {}
+        for k, x in s.items():
+            if k in ("own", "members"):
+                d[k] = [[n, v] for n, v in x]
+            else:
+                d[k] = x
+        out.append(d)
+    return pyval.enc(out)
+
+
+def specs_dec(text):
+    specs = pyval.from_tree(pyval.parse(text))
+    for s in specs:
+        for key in ("own", "members"):
+            if key in s:
+                s[key] = [tuple(x) for x in s[key]]
+    return specs
 
 
 def _k(k):
